@@ -35,6 +35,47 @@ class _FakeTime:
         raise K.HarnessError("cutadapt called time.sleep(); not modelled")
 
 
+class _FakeResource:
+    """The name `resource` inside cutadapt.files: the descriptor limit of the simulated process."""
+
+    RLIMIT_NOFILE = 7
+
+    def __init__(self):
+        self.soft, self.hard, self.raised = 1024, 4096, 0
+
+    def getrlimit(self, which):
+        return (self.soft, self.hard)
+
+    def setrlimit(self, which, limits):
+        self.soft, self.hard = limits
+        self.raised += 1
+
+
+class _TtyStderr(io.StringIO):
+    """Standard error that is a terminal. The animated progress line ('\\r[...]' updates and the
+    newline that ends it) is kept apart from everything else written to it."""
+
+    def __init__(self):
+        super().__init__()
+        self.progress = []
+        self._after_progress = False
+
+    def isatty(self):
+        return True
+
+    def write(self, s):
+        if s.startswith("\r"):
+            self.progress.append(s)
+            self._after_progress = True
+            return len(s)
+        if s == "\n" and self._after_progress:
+            self.progress.append(s)
+            self._after_progress = False
+            return 1
+        self._after_progress = False
+        return super().write(s)
+
+
 def install():
     global _INSTALLED
     if _INSTALLED:
@@ -58,75 +99,16 @@ def install():
     assert issubclass(runners.WorkerProcess, K.SimProcess)
     runners.multiprocessing = K.MultiprocessingShim
     files.xopen = simfs.sim_xopen
+    files.resource = _FakeResource()
     ft = _FakeTime()
     cli.time = ft
     adapters.time = ft
     utils.time = ft
     _mods.update(runners=runners, adapters=adapters, cli=cli, files=files, time=ft)
-    _snapshot_module_state()
+    from . import procimage
+
+    _mods["space"] = procimage.Space()
     _INSTALLED = True
-
-
-_GLOBAL_SNAPSHOT = []  # (container object, pristine deep copy)
-
-
-def _snapshot_module_state():
-    """
-    A real cutadapt run starts in a fresh interpreter. Simulated runs share one interpreter,
-    so every mutable container reachable as a module global, class attribute or function
-    default of a cutadapt module (caches, counters such as _generate_adapter_name's [1]) is
-    recorded here once and restored before every run.
-    """
-    import copy
-    import enum
-    import inspect
-
-    seen = set()
-
-    def note(obj):
-        if isinstance(obj, (dict, list, set)) and id(obj) not in seen:
-            seen.add(id(obj))
-            try:
-                _GLOBAL_SNAPSHOT.append((obj, copy.deepcopy(obj)))
-            except Exception:
-                pass
-
-    for modname, module in list(sys.modules.items()):
-        if not (modname == "cutadapt" or modname.startswith("cutadapt.")) or module is None:
-            continue
-        for name, val in list(vars(module).items()):
-            if name.startswith("__"):
-                continue
-            note(val)
-            if inspect.isclass(val) and issubclass(val, enum.Enum):
-                continue
-            if inspect.isclass(val) and getattr(val, "__module__", None) == modname:
-                for an, av in list(vars(val).items()):
-                    if not an.startswith("__"):
-                        note(av)
-                    f = getattr(av, "__func__", av)
-                    for d in (getattr(f, "__defaults__", None) or ()):
-                        note(d)
-            elif inspect.isfunction(val) and getattr(val, "__module__", None) == modname:
-                for d in (val.__defaults__ or ()):
-                    note(d)
-                for d in (val.__kwdefaults__ or {}).values():
-                    note(d)
-
-
-def _restore_module_state():
-    import copy
-
-    for obj, pristine in _GLOBAL_SNAPSHOT:
-        fresh = copy.deepcopy(pristine)
-        if isinstance(obj, dict):
-            obj.clear()
-            obj.update(fresh)
-        elif isinstance(obj, list):
-            obj[:] = fresh
-        else:
-            obj.clear()
-            obj.update(fresh)
 
 
 class _Stdout(io.TextIOWrapper):
@@ -162,7 +144,7 @@ class RunResult:
     __slots__ = (
         "outcome", "exit", "files", "stdout", "stderr", "log_digest", "choices", "steps",
         "probes", "blocked", "n_tasks", "log", "fs_events", "main_exc", "enabled_sizes",
-        "alive_at_end", "markers", "error_logs",
+        "alive_at_end", "markers", "error_logs", "progress", "env_fired",
     )
 
     def ok(self):
@@ -177,16 +159,24 @@ class RunResult:
 
 
 def run_sim(argv, files, chooser, capacity=65536, feeder=True, step_cap=K.STEP_CAP_DEFAULT,
-            keep_log=False):
+            keep_log=False, env=None):
     """
     One simulated execution of `cutadapt <argv>` on the SimFS content `files` ({path: bytes}).
+    env: the environment of the simulated machine - start_method ('spawn' | 'fork'),
+    tty (standard error is a terminal), piped_exts (compressed formats written through an
+    external program when threads > 0), emfile_at (the n-th open fails once with EMFILE).
     """
     install()
+    env = env or {}
     cli = _mods["cli"]
     adapters = _mods["adapters"]
+    space = _mods["space"]
     # per-run reset of process-global state (DESIGN §1)
-    _restore_module_state()
+    space.reset()
     adapters._generate_adapter_name.__defaults__[0][0] = 1
+    res_ = _mods["files"].resource
+    res_.soft, res_.hard, res_.raised = 1024, 4096, 0
+    simfs.begin_run(env)
     _mods["time"].t = 0.0
     root = logging.getLogger()
     saved_handlers, saved_level = root.handlers[:], root.level
@@ -199,8 +189,12 @@ def run_sim(argv, files, chooser, capacity=65536, feeder=True, step_cap=K.STEP_C
     saved_std = (sys.stdin, sys.stdout, sys.stderr)
     sys.stdin = _NoFilenoStdin("")
     sys.stdout = _Stdout(out_buf, encoding="utf-8", write_through=True)
-    sys.stderr = io.StringIO()
+    sys.stderr = _TtyStderr() if env.get("tty") else io.StringIO()
     kern = K.Kernel(chooser, capacity=capacity, feeder=feeder, step_cap=step_cap)
+    kern.start_method = env.get("start_method", "spawn")
+    from . import procimage
+
+    kern.images = procimage.Images(space, kern.start_method)
     simfs._STDOUT_BUF = out_buf
     res = RunResult()
 
@@ -219,6 +213,7 @@ def run_sim(argv, files, chooser, capacity=65536, feeder=True, step_cap=K.STEP_C
             except Exception:
                 pass
             res.stderr = simfs.to_sim(sys.stderr.getvalue())
+            res.progress = "".join(getattr(sys.stderr, "progress", []))
             sys.stdin, sys.stdout, sys.stderr = saved_std
             for h in root.handlers:
                 try:
@@ -240,6 +235,13 @@ def run_sim(argv, files, chooser, capacity=65536, feeder=True, step_cap=K.STEP_C
     res.enabled_sizes = kern.enabled_sizes
     res.steps = kern.step
     res.probes = kern.probes
+    for k_, v_ in simfs.FIRED.items():
+        res.probes["env_" + k_] = res.probes.get("env_" + k_, 0) + v_
+    if res_.raised:
+        res.probes["env_rlimit_raised"] = res_.raised
+    if kern.images.nonempty:
+        res.probes["process_image_differs_from_pristine_at_switch"] = kern.images.nonempty
+    res.env_fired = dict(simfs.FIRED)
     res.blocked = kern.blocked_report
     res.n_tasks = len(kern.tasks)
     res.fs_events = None
